@@ -257,6 +257,15 @@ class PathCounter:
                 counter.bytes_requested += len(b)
                 return k
 
+            def readline(self, *a):
+                d = self._fh.readline(*a)
+                counter.io_log.append((0, len(d)))
+                counter.bytes_requested += len(d)
+                return d
+
+            def __iter__(self):
+                return iter(self.readline, b"")
+
             def __getattr__(self, a):
                 return getattr(self._fh, a)
 
@@ -416,6 +425,19 @@ def giant_vmdk_flat(rng, dense):
     g = Giant("vmdk-raw-extents", [counter], opener, 7 * cap * 512, probes, meta, c0=256 << 10, note={"extents": lines})
     g.cleanup = lambda: shutil.rmtree(root, ignore_errors=True)
     return g
+
+
+def giant_vmdk_raw_handle(rng, dense):
+    """A 16 TiB raw (flat) extent handed over as a file object, its first 64 MiB never written: VMDK(fh) looks at the first bytes."""
+    from dissect.hypervisor.disk.vmdk import VMDK
+    _d = DR(rng)
+    size = 16 << 40
+    lead = 64 << 20
+    spots = sorted({lead, lead + (3 << 30) + 512 * rng.randrange(0, 1000), size // 2 + 4096 * rng.randrange(0, 100), size - 8192})
+    extra = {lead + 8192 * _d.randrange(1, 1 << 30) for _ in range(60)} if dense else set()
+    vf = VirtualFile(size, [(o, 8192, "pat", 3) for o in sorted(set(spots) | extra)])
+    probes = [(o, 4096, patterns.pat(3, o, 4096)) for o in rng.sample(spots, 3)] + [(4096 * rng.randrange(0, 1000), 4096, bytes(4096)), (lead - 4096, 8192, bytes(4096) + patterns.pat(3, lead, 4096))]
+    return Giant("vmdk-raw-handle", [vf], lambda: VMDK(vf), size, probes, 0, c0=64 << 10, note={"first_written_byte": lead})
 
 
 # ------------------------------------------------------------------------------------------------ VHDX / VHD / VDI / HDS
@@ -713,7 +735,7 @@ def giant_vhdx_4k(rng, dense):
     return giant_vhdx(rng, dense, sector=4096)
 
 
-BUILDERS = [giant_qcow2, giant_qcow2_2m, giant_qcow2_4k, giant_vmdk_se, giant_vmdk_hosted, giant_vmdk_descriptor, giant_vmdk_flat, giant_vmdk_stream, giant_vdi_parent, giant_vhdx_diff, giant_vhdx, giant_vhdx_4k, giant_vhd, giant_vdi, giant_hds, giant_hds_v1]
+BUILDERS = [giant_qcow2, giant_qcow2_2m, giant_qcow2_4k, giant_vmdk_se, giant_vmdk_hosted, giant_vmdk_descriptor, giant_vmdk_flat, giant_vmdk_raw_handle, giant_vmdk_stream, giant_vdi_parent, giant_vhdx_diff, giant_vhdx, giant_vhdx_4k, giant_vhd, giant_vdi, giant_hds, giant_hds_v1]
 
 
 def measure(g):
